@@ -1,4 +1,5 @@
 """Per-property run specifications used by check.py."""
+import os
 
 COMMON = ["harness/mon.c", "harness/lec.c", "ref/ref.c"]
 DRIVER_SOURCES = {
@@ -9,6 +10,13 @@ DRIVER_SOURCES = {
     "drv_api": {"src": ["harness/drv_api.c", "harness/ledger.c"] + COMMON},
     "drv_api_ledger": {"src": ["harness/drv_api.c", "harness/ledger.c"] + COMMON, "cflags": ["-DLEDGER"]},
 }
+
+# valgrind memcheck over the quick-size workload of a plain build (thorough tier only): uninitialised-value use and invalid
+# accesses that neither ASan's red zones nor the byte-exact oracles see.  The first error ends the process (the case is
+# recorded as violated and the shard restarts behind it).
+MEMCHECK = ["valgrind", "-q", "--error-exitcode=66", "--exit-on-first-error=yes", "--leak-check=no", "--undef-value-errors=yes",
+            "--partial-loads-ok=yes", "--max-stackframe=8000000", "--num-callers=12",
+            "--suppressions=" + os.path.join(os.path.dirname(os.path.abspath(__file__)), "memcheck.supp")]
 
 NOISE_NOTE = ("; odd-numbered shards run with a noise thread: a second thread that keeps decoding / reconstructing / querying through the "
               "instance and stripe under test and through its own instances of several backends, so that the oracles also see results that depend on what other threads do")
@@ -64,7 +72,8 @@ PROPS = {
             "runs": [{"name": "plain-guard", "flavour": "plain", "driver": "drv_pure", "args": []},
                      {"name": "asan-guard", "flavour": "asan", "driver": "drv_pure", "args": []},
                      {"name": "asan-nosse-guard", "flavour": "asan-nosse", "driver": "drv_pure", "args": [], "shards": 8},
-                     {"name": "threads", "flavour": "asan", "driver": "drv_pure", "args": ["--mode", "threads"], "shards": 4}]},
+                     {"name": "threads", "flavour": "asan", "driver": "drv_pure", "args": ["--mode", "threads"], "shards": 4},
+                     {"name": "plain-memcheck", "flavour": "plain", "driver": "drv_pure", "args": [], "wrapper": MEMCHECK, "driver_tier": "quick", "timeout": {"quick": 1800, "thorough": 7200}}]},
     "C14": api("C14", "exploration",
                "history + executable model: all canonical action sequences over <=4 slots with alphabet {create rs(4,2), rs(3,3), xor(5,5,3), null, rs(3,0), failed-create, destroy(dead), destroy(slot), use(slot)} up to depth 4 (quick) / 6 (thorough), each with and without a descriptor-counter preset (counter jumps to INT_MAX-1 after the second create so that the wrap lands on live descriptors); "
                "random histories of length 10..200 with counter presets {none, jump after 2nd/3rd create, INT_MAX-1 from the start, -5}; all 24 destruction orders of four RS instances; after every step: registry length == |model|, descriptor positive and unique, APIs on dead descriptors fail, used instance round-trips (decode with data loss + re-encode equals kept stripe); "
@@ -149,5 +158,17 @@ PROPS = {
 }
 
 # thorough tier: number of seeds the whole workload is repeated under (see check.py)
+# memcheck pass (see MEMCHECK above): thorough tier of the codec / format / API checks, both tiers of C15 (above) and C16
+MEMCHECK_NOTE = ("; plus a valgrind-memcheck pass of a plain build over the quick-size workload (uninitialised-value use, invalid accesses and "
+                 "frees that red zones and byte-exact oracles do not see; the first report ends the case as a violation)")
+for _p, _drv, _tiers in (("C01", "drv_codec", ("thorough",)), ("C02", "drv_codec", ("thorough",)), ("C03", "drv_codec", ("thorough",)), ("C06", "drv_codec", ("thorough",)),
+                         ("C20", "drv_codec", ("thorough",)), ("C07", "drv_format", ("thorough",)), ("C09", "drv_format", ("thorough",)), ("C10", "drv_format", ("thorough",)),
+                         ("C11", "drv_format", ("thorough",)), ("C12", "drv_format", ("thorough",)), ("C13", "drv_api", ("thorough",)), ("C16", "drv_api", ("quick", "thorough"))):
+    PROPS[_p].setdefault("extra_runs", [])
+    PROPS[_p]["extra_runs"] = list(PROPS[_p]["extra_runs"]) + [{"name": "plain-memcheck", "flavour": "plain", "driver": _drv, "args": [], "wrapper": MEMCHECK, "driver_tier": "quick",
+                                                                "tiers": _tiers, "timeout": {"quick": 1800, "thorough": 7200}}]
+    PROPS[_p]["rule"] += MEMCHECK_NOTE
+PROPS["C15"]["rule"] += MEMCHECK_NOTE
+
 for _p, _n in {"C05": 3, "C07": 8, "C08": 3, "C09": 10, "C10": 10, "C11": 12, "C12": 12, "C13": 6, "C15": 5, "C16": 3, "C17": 10, "C18": 8, "C20": 16, "C02": 2}.items():
     PROPS[_p]["thorough_seeds"] = _n
